@@ -601,7 +601,7 @@ func c09e(c *Ctx) {
 }
 
 func c09f(c *Ctx) {
-	c.checkLockDiscipline(Protected{pkgCtlog, "Log", "rootsMu", []string{"roots", "rootsPEM"}}, nil, true)
+	c.checkLockDiscipline(Protected{Pkg: pkgCtlog, Type: "Log", Mutex: "rootsMu", Fields: []string{"roots", "rootsPEM"}}, nil, true)
 	f := c.Fn("ctlog.(*Log).SetRootsFromPEM")
 	if f != nil {
 		var stores []Site
